@@ -1,4 +1,4 @@
-import FluentProofs.SerializerML
+import FluentProofs.SerializerCrLoneLoop
 /-!
 # Serializer lemmas, part 12: `PatRT` — round trip of a class pattern at an indent level (C04 / T3)
 -/
@@ -46,36 +46,117 @@ def finalNl : Bool → List (PatElem Bytes) → Bool
   | _, .text v :: es => finalNl (endsNl v) es
   | _, .placeable _ :: es => finalNl false es
 
-theorem serElements_ml (L : Nat) (es : List (PatElem Bytes)) :
-    ∀ (hpl : ∀ x, PatElem.placeable x ∈ es → PlRT L x) (nl : Bool) (w : Writer), mlElems nl es = true → WS w L nl →
-      ∃ w', serElements w es = some w' ∧ w'.buffer = w.buffer ++ (elemsText L nl es).toArray ∧
+/-- `write_literal` whatever the writer ends with: indentation after a line feed, a second `\r` between a `\r` and a
+`\n`, then the literal -/
+theorem wsc_writeLiteral {w : Writer} {L : Nat} {nl : Bool} (hw : WSc w L nl) (item : Bytes) (hne : item ≠ []) :
+    (w.writeLiteral item).buffer = w.buffer ++ ((if nl then spacesL (4 * L) else []) ++
+        (if endsWith w 13 && item.head? == some 10 then [13] else []) ++ item).toArray ∧
+      WSc (w.writeLiteral item) L (endsNl item) ∧ endsWith (w.writeLiteral item) 13 = endsCr item := by
+  obtain ⟨hL, h10w⟩ := hw
+  have hbuf : (w.writeLiteral item).buffer = w.buffer ++ ((if nl then spacesL (4 * L) else []) ++
+      (if endsWith w 13 && item.head? == some 10 then [13] else []) ++ item).toArray := by
+    cases nl with
+    | true =>
+      have h13 : endsWith w 13 = false := by
+        rw [endsWith_iff] at h10w
+        simp [endsWith, h10w]
+      rw [writeLiteral_after_newline w item h10w, hL, h13]
+      apply Array.ext'
+      simp [spaces_toList]
+    | false =>
+      rw [writeLiteral_mid_line w item h10w]
+      apply Array.ext'
+      simp only [Array.toList_append, List.toList_toArray, Bool.false_eq_true, if_false, List.nil_append,
+        List.append_assoc, List.append_cancel_left_eq]
+      split <;> simp
+  have hback : ∀ x, item.getLast? = some x → (w.writeLiteral item).buffer.back? = some x := by
+    intro x hl
+    rw [hbuf, Array.back?_append]
+    have : ((if nl then spacesL (4 * L) else []) ++
+        (if endsWith w 13 && item.head? == some 10 then [13] else []) ++ item).toArray.back? = some x := by
+      rw [← Array.getLast?_toList]; simp [List.getLast?_append, hl]
+    rw [this]; simp
+  cases hl : item.getLast? with
+  | none => simp at hl; exact absurd hl hne
+  | some x =>
+    refine ⟨hbuf, ⟨by simp [hL], ?_⟩, ?_⟩
+    · simp [endsWith, hback x hl, endsNl, hl]
+    · simp [endsWith, hback x hl, endsCr, hl]
+
+/-- `write_literal` of a literal that does not start with `\n` and does not end with `\r`, whatever the writer ends with -/
+theorem wsc_writeLiteral_plain {w : Writer} {L : Nat} {nl : Bool} (hw : WSc w L nl) (item : Bytes) (hne : item ≠ [])
+    (hhead : item.head? ≠ some 10) (h13 : item.getLast? ≠ some 13) :
+    (w.writeLiteral item).buffer = w.buffer ++ ((if nl then spacesL (4 * L) else []) ++ item).toArray ∧
+      WS (w.writeLiteral item) L (endsNl item) := by
+  obtain ⟨hb, hw1, hcr⟩ := wsc_writeLiteral hw item hne
+  have hh : (item.head? == some 10) = false := by simpa using hhead
+  rw [hh, Bool.and_false] at hb
+  refine ⟨by simpa using hb, hw1.1, ?_, hw1.2⟩
+  rw [hcr]; simpa [endsCr] using h13
+
+theorem crPad_nil (es : List (PatElem Bytes)) : crPad [] es = [] := crPad_of_notCr (by decide) es
+
+theorem mlLastOK_notCr {v : Bytes} {es : List (PatElem Bytes)} (h : mlLastOK (.text v :: es) = true)
+    (hcr : endsCr v = true) : es ≠ [] := by
+  intro h0; subst h0
+  simp only [endsCr, beq_iff_eq] at hcr
+  simp [mlLastOK, hcr] at h
+
+/-- the serializer on the elements of a class pattern, behind a text `prev` (whose last byte is what the writer ends
+with, as far as `\r` is concerned) -/
+theorem serElements_ml_g (L : Nat) (es : List (PatElem Bytes)) :
+    ∀ (hpl : ∀ x, PatElem.placeable x ∈ es → PlRT L x) (nl : Bool) (w : Writer) (prev : Bytes), mlElems nl es = true →
+      mlLastOK es = true → WSc w L nl → endsWith w 13 = endsCr prev → (endsCr prev = true → es ≠ []) →
+      ∃ w', serElements w es = some w' ∧ w'.buffer = w.buffer ++ (crPad prev es ++ elemsText L nl es).toArray ∧
         WS w' L (finalNl nl es) := by
   induction es with
-  | nil => intro _ nl w _ hw; exact ⟨w, by simp [serElements], by simp [elemsText], hw⟩
+  | nil =>
+    intro _ nl w prev _ _ hw h13 hne
+    have hcr : endsCr prev = false := by
+      cases h : endsCr prev
+      · rfl
+      · exact absurd rfl (hne h)
+    exact ⟨w, by simp [serElements], by simp [elemsText, crPad], hw.1, by rw [h13, hcr], hw.2⟩
   | cons e es ih =>
-    intro hpl nl w hml hw
+    intro hpl nl w prev hml hlast hw h13 _
     have hpl' : ∀ x, PatElem.placeable x ∈ es → PlRT L x := fun x hx => hpl x (List.mem_cons_of_mem _ hx)
+    have hlast' := mlLastOK_tail hlast
     cases e with
     | text v =>
       simp only [mlElems, Bool.and_eq_true] at hml
       obtain ⟨⟨⟨hvok, _⟩, _⟩, hml'⟩ := hml
       have hvne := mlTextOK_ne hvok
-      have h13 : v.getLast? ≠ some 13 := by
-        intro h; exact (mlTextOK_mem hvok 13 (List.mem_of_getLast? h)).1 rfl
-      obtain ⟨hbuf, hw1⟩ := ws_writeLiteral hw v hvne h13
-      obtain ⟨w', h1, h2, h3⟩ := ih hpl' (endsNl v) (w.writeLiteral v) hml' hw1
+      obtain ⟨hbuf, hw1, h13'⟩ := wsc_writeLiteral hw v hvne
+      obtain ⟨w', h1, h2, h3⟩ := ih hpl' (endsNl v) (w.writeLiteral v) v hml' hlast' hw1 h13'
+        (fun hcr => mlLastOK_notCr hlast hcr)
       refine ⟨w', by simp only [serElements, serElement, h1], ?_, by simpa [finalNl] using h3⟩
-      rw [h2, hbuf]
+      rw [h2, hbuf, h13]
       apply Array.ext'
-      simp [elemsText]
+      cases nl with
+      | false => simp [elemsText, crPad]
+      | true =>
+        have hcr : endsCr prev = false := by
+          rw [← h13]
+          have := hw.2
+          rw [endsWith_iff] at this
+          simp [endsWith, this]
+        simp [elemsText, crPad, hcr]
     | placeable x =>
       have hml' : mlElems false es = true := by simpa [mlElems] using hml
       obtain ⟨w1, hs1, hbuf, hw1⟩ := (hpl x (List.mem_cons_self)).ser w nl hw
-      obtain ⟨w', h1, h2, h3⟩ := ih hpl' false w1 hml' hw1
+      obtain ⟨w', h1, h2, h3⟩ := ih hpl' false w1 [] hml' hlast' hw1.toC (by rw [hw1.2.1]; rfl)
+        (fun h => by cases h)
       refine ⟨w', by simp only [serElements, hs1, h1], ?_, by simpa [finalNl] using h3⟩
-      rw [h2, hbuf]
+      rw [h2, hbuf, crPad_nil]
       apply Array.ext'
-      simp [elemsText]
+      simp [elemsText, crPad]
+
+theorem serElements_ml (L : Nat) (es : List (PatElem Bytes)) (hpl : ∀ x, PatElem.placeable x ∈ es → PlRT L x)
+    (nl : Bool) (w : Writer) (hml : mlElems nl es = true) (hlast : mlLastOK es = true) (hw : WS w L nl) :
+    ∃ w', serElements w es = some w' ∧ w'.buffer = w.buffer ++ (elemsText L nl es).toArray ∧
+      WS w' L (finalNl nl es) := by
+  have := serElements_ml_g L es hpl nl w [] hml hlast hw.toC (by rw [hw.2.1]; rfl) (fun h => by cases h)
+  rwa [crPad_nil, List.nil_append] at this
 
 theorem finalNl_last (nl : Bool) (es : List (PatElem Bytes)) (hne : es ≠ []) (hl : mlLastOK es = true) :
     finalNl nl es = false := by
@@ -88,7 +169,7 @@ theorem finalNl_last (nl : Bool) (es : List (PatElem Bytes)) (hne : es ≠ []) (
       | text v =>
         simp only [mlLastOK, Bool.and_eq_true, bne_iff_ne, ne_eq] at hl
         simp only [finalNl, endsNl, beq_eq_false_iff_ne, ne_eq]
-        exact hl.2
+        exact hl.1.2
       | placeable x => rfl
     | cons e2 rest =>
       have := fun nl' => ih nl' (by simp) (mlLastOK_tail hl)
@@ -123,7 +204,7 @@ theorem serPattern_ml (L : Nat) (p : List (PatElem Bytes)) (hcl : mlPattern p = 
       split
       · exact ⟨by simpa using hb, ws_indent hw1⟩
       · exact ⟨by simpa using hb, hw1⟩
-  obtain ⟨w3, hs3, hb3, hw3⟩ := serElements_ml (elemLevel L p) p hpl (startsOnNewLine p) (patternPre w p) hml hpre.2
+  obtain ⟨w3, hs3, hb3, hw3⟩ := serElements_ml (elemLevel L p) p hpl (startsOnNewLine p) (patternPre w p) hml hlast hpre.2
   rw [finalNl_last _ p hne hlast] at hw3
   simp only [serPattern, hs3]
   unfold patternPost
@@ -141,16 +222,21 @@ theorem serPattern_ml (L : Nat) (p : List (PatElem Bytes)) (hcl : mlPattern p = 
 
 /-! ## `get_pattern` on a class pattern -/
 
+theorem skipEol_lone (s : Src) (p : Nat) (b : UInt8) (hb : s[p]? = some b) (h2 : b ≠ 10)
+    (h3 : b = 13 → s[p + 1]? ≠ some 10) : skipEol s p = none := by
+  unfold skipEol
+  rw [hb]
+  split
+  · rename_i hh; cases hh; exact absurd rfl h2
+  · rename_i hh; cases hh; simpa using h3 rfl
+  · rfl
+
 theorem skipBlankBlock_line (s : Src) (q k : Nat) (b : UInt8) (hsp : ∀ j, j < k → s[q + j]? = some 32)
-    (hb : s[q + k]? = some b) (h1 : b ≠ 32) (h2 : b ≠ 10) (h3 : b ≠ 13) : skipBlankBlock s q = (q, 0) := by
+    (hb : s[q + k]? = some b) (h1 : b ≠ 32) (h2 : b ≠ 10) (h3 : b = 13 → s[q + k + 1]? ≠ some 10) :
+    skipBlankBlock s q = (q, 0) := by
   have hsbi : skipBlankInline s q = q + k := skipBlankInline_run s k q hsp (by rw [hb]; simpa using h1)
   unfold skipBlankBlock
-  rw [skipBlankBlockGo, hsbi]
-  have : skipEol s (q + k) = none := by
-    unfold skipEol
-    rw [hb]
-    split <;> simp_all
-  rw [this]
+  rw [skipBlankBlockGo, hsbi, skipEol_lone s (q + k) b hb h2 h3]
   simp [get_lt hb]
 
 theorem exprText_head_of {L : Nat} {x : Expr Bytes} (h : PlRT L x) : ∃ rest, exprText L x = 123 :: rest := by
@@ -159,21 +245,64 @@ theorem exprText_head_of {L : Nat} {x : Expr Bytes} (h : PlRT L x) : ∃ rest, e
   | nil => simp [hx] at this
   | cons a as => simp [hx] at this; subst this; exact ⟨as, rfl⟩
 
+/-- inside a class text a `\r` is not followed by `\n` -/
+theorem mlTextOK_cr_lone {v : Bytes} (hv : mlTextOK v = true) (pre post : Bytes) (h : v = pre ++ 13 :: post) :
+    post.head? ≠ some 10 := by
+  intro h10
+  cases post with
+  | nil => simp at h10
+  | cons b post' =>
+    simp only [List.head?_cons, Option.some.injEq] at h10
+    subst h10
+    cases post' with
+    | nil =>
+      have : crlfEnd v = true := (crlfEnd_iff v).mpr ⟨pre, h⟩
+      rw [mlTextOK_nocrlf hv] at this; cases this
+    | cons c r =>
+      apply mlTextOK_init hv 10 _ rfl
+      rw [h, show pre ++ 13 :: 10 :: c :: r = (pre ++ [13, 10]) ++ (c :: r) by simp,
+        List.dropLast_append_of_ne_nil (by simp)]
+      simp
+
+/-- in the text of a class pattern, a `\r` of a text element is followed by a byte other than `\n` -/
+theorem text_tail_lone (L : Nat) (nl : Bool) (v : Bytes) (es : List (PatElem Bytes))
+    (hpl : ∀ x, PatElem.placeable x ∈ es → PlRT L x) (hml : mlElems nl (.text v :: es) = true)
+    (hlast : mlLastOK (.text v :: es) = true) (pre post : Bytes) (h : v = pre ++ 13 :: post) :
+    ∃ b2 r2, post ++ crPad v es ++ elemsText L (endsNl v) es = b2 :: r2 ∧ b2 ≠ 10 := by
+  have hvok : mlTextOK v = true := by
+    simp only [mlElems, Bool.and_eq_true] at hml; exact hml.1.1.1
+  have hlone := mlTextOK_cr_lone hvok pre post h
+  cases post with
+  | cons b2 r => exact ⟨b2, r ++ crPad v es ++ elemsText L (endsNl v) es, by simp, by simpa using hlone⟩
+  | nil =>
+    have hcr : v.getLast? = some 13 := by rw [h]; simp
+    rcases ml_next v es nl hml hlast with ⟨hnv, _⟩ | ⟨_, _, x, hx, _, _, x3⟩ | ⟨hnv, x, es', hes⟩ | ⟨hnv, _, es', hes⟩
+    · simp [endsNl, hcr] at hnv
+    · rw [hcr] at hx; cases hx; exact absurd rfl x3
+    · subst hes
+      obtain ⟨rest, hr⟩ := exprText_head_of (hpl x (List.mem_cons_self))
+      exact ⟨123, rest ++ elemsText L false es', by simp [crPad, hnv, elemsText, hr], by decide⟩
+    · subst hes
+      exact ⟨13, elemsText L (endsNl v) (.text [10] :: es'), by simp [crPad, endsCr, hcr], by decide⟩
+
 /-- the first line of a pattern that starts on a new line: indentation, then a byte that is no blank and no
-line end -/
+line end (a `\r` is followed by a byte other than `\n`) -/
 theorem elemsText_first_line (L : Nat) (p : List (PatElem Bytes)) (hne : p ≠ [])
-    (hpl : ∀ x, PatElem.placeable x ∈ p → PlRT L x) (hml : mlElems true p = true)
+    (hpl : ∀ x, PatElem.placeable x ∈ p → PlRT L x) (hml : mlElems true p = true) (hlast : mlLastOK p = true)
     (hfirst : ∀ v es, p = .text v :: es → v ≠ [10]) :
-    ∃ k b rest, elemsText L true p = spacesL k ++ b :: rest ∧ b ≠ 32 ∧ b ≠ 10 ∧ b ≠ 13 := by
+    ∃ k b rest, elemsText L true p = spacesL k ++ b :: rest ∧ b ≠ 32 ∧ b ≠ 10 ∧
+      (b = 13 → ∃ b2 r2, rest = b2 :: r2 ∧ b2 ≠ 10) := by
   cases p with
   | nil => exact absurd rfl hne
   | cons e es =>
     cases e with
     | placeable x =>
       obtain ⟨rest, hr⟩ := exprText_head_of (hpl x (List.mem_cons_self))
-      exact ⟨4 * L, 123, rest ++ elemsText L false es, by simp [elemsText, hr], by decide, by decide, by decide⟩
+      exact ⟨4 * L, 123, rest ++ elemsText L false es, by simp [elemsText, hr], by decide, by decide,
+        fun h => by cases h⟩
     | text v =>
       have hv10 := hfirst v es rfl
+      have hml0 := hml
       simp only [mlElems, Bool.and_eq_true] at hml
       obtain ⟨⟨⟨hvok, _⟩, hls⟩, _⟩ := hml
       have hlsok : lineStartOK v es = true := by
@@ -204,24 +333,27 @@ theorem elemsText_first_line (L : Nat) (p : List (PatElem Bytes)) (hne : p ≠ [
               have : v.getLast? = some 32 := by
                 rw [hv2]; simp [spacesL, List.getLast?_replicate]; omega
               simp [endsNl, this]
-            refine ⟨4 * L + leadSpaces v, 123, rest ++ elemsText L false es', ?_, by decide, by decide, by decide⟩
+            refine ⟨4 * L + leadSpaces v, 123, rest ++ elemsText L false es', ?_, by decide, by decide,
+              fun h => by cases h⟩
             rw [hu] at hsplit
-            simp only [elemsText, if_true, hnv, Bool.false_eq_true, if_false, List.nil_append, hr]
+            simp only [elemsText, if_true, hnv, Bool.false_eq_true, if_false, List.nil_append, hr, crPad]
             generalize leadSpaces v = k at hsplit ⊢
             rw [hsplit]
             simp [spacesL, ← List.replicate_append_replicate]
       | cons c u' =>
         simp only [lineStartOK, hu] at hlsok
-        have hcm : c ∈ v := by rw [hsplit, hu]; simp
         simp only [contentStartOK, Bool.and_eq_true, bne_iff_ne, ne_eq] at hlsok
-        refine ⟨4 * L + leadSpaces v, c, u' ++ elemsText L (endsNl v) es, ?_, hlsok.1.1.1.1, hlsok.1.1.1.2,
-          (mlTextOK_mem hvok c hcm).1⟩
         rw [hu] at hsplit
-        simp only [elemsText, if_true]
-        generalize leadSpaces v = k at hsplit ⊢
-        generalize endsNl v = nv
-        rw [hsplit]
-        simp [spacesL, ← List.replicate_append_replicate]
+        refine ⟨4 * L + leadSpaces v, c, u' ++ crPad v es ++ elemsText L (endsNl v) es, ?_, hlsok.1.1.1.1,
+          hlsok.1.1.1.2, ?_⟩
+        · simp only [elemsText, if_true]
+          generalize leadSpaces v = k at hsplit ⊢
+          generalize endsNl v = nv
+          generalize crPad v es = pad
+          rw [hsplit]
+          simp [spacesL, ← List.replicate_append_replicate]
+        · intro hc; subst hc
+          exact text_tail_lone L true v es (fun x hx => hpl x (List.mem_cons_of_mem _ hx)) hml0 hlast _ u' hsplit
 
 theorem excesses_single (p : List (PatElem Bytes)) (h : isMultiline p = false) : excesses false p = [] := by
   induction p with
@@ -243,27 +375,29 @@ theorem excesses_single (p : List (PatElem Bytes)) (h : isMultiline p = false) :
       simp [excesses, hnv, ih h.2]
 
 theorem elemsText_first_inline (L : Nat) (p : List (PatElem Bytes)) (hne : p ≠ [])
-    (hpl : ∀ x, PatElem.placeable x ∈ p → PlRT L x) (hml : mlElems false p = true)
+    (hpl : ∀ x, PatElem.placeable x ∈ p → PlRT L x) (hml : mlElems false p = true) (hlast : mlLastOK p = true)
     (hfirst : ∀ v es, p = .text v :: es → v.head? ≠ some 32 ∧ v.head? ≠ some 10) :
-    ∃ b rest, elemsText L false p = b :: rest ∧ b ≠ 32 ∧ b ≠ 10 ∧ b ≠ 13 := by
+    ∃ b rest, elemsText L false p = b :: rest ∧ b ≠ 32 ∧ b ≠ 10 ∧ (b = 13 → ∃ b2 r2, rest = b2 :: r2 ∧ b2 ≠ 10) := by
   cases p with
   | nil => exact absurd rfl hne
   | cons e es =>
     cases e with
     | placeable x =>
       obtain ⟨rest, hr⟩ := exprText_head_of (hpl x (List.mem_cons_self))
-      exact ⟨123, rest ++ elemsText L false es, by simp [elemsText, hr], by decide, by decide, by decide⟩
+      exact ⟨123, rest ++ elemsText L false es, by simp [elemsText, hr], by decide, by decide, fun h => by cases h⟩
     | text v =>
       obtain ⟨h1, h2⟩ := hfirst v es rfl
+      have hml0 := hml
       simp only [mlElems, Bool.and_eq_true] at hml
       obtain ⟨⟨⟨hvok, _⟩, _⟩, _⟩ := hml
       cases v with
       | nil => exact absurd rfl (mlTextOK_ne hvok)
       | cons b rest =>
-        refine ⟨b, rest ++ elemsText L (endsNl (b :: rest)) es, by simp [elemsText], ?_, ?_,
-          (mlTextOK_mem hvok b (by simp)).1⟩
+        refine ⟨b, rest ++ crPad (b :: rest) es ++ elemsText L (endsNl (b :: rest)) es, by simp [elemsText], ?_, ?_, ?_⟩
         · simpa using h1
         · simpa using h2
+        · intro hb; subst hb
+          exact text_tail_lone L false _ es (fun x hx => hpl x (List.mem_cons_of_mem _ hx)) hml0 hlast [] rest rfl
 
 /-- **`get_pattern` reads a class pattern back** -/
 theorem getPattern_ml {s : Src} (hs : AsciiThenBoundary s) (L : Nat) (p : List (PatElem Bytes)) (hcl : mlPattern p = true)
@@ -280,7 +414,7 @@ theorem getPattern_ml {s : Src} (hs : AsciiThenBoundary s) (L : Nat) (p : List (
     simp only [patText, patPrefix, hs1, Bool.false_eq_true, if_false, List.cons_append, List.nil_append, at_cons,
       List.length_cons] at hat hf hq'ge
     rw [hs1] at hml
-    obtain ⟨b, rest, hbr, b1, b2, b3⟩ := elemsText_first_inline (elemLevel L p) p hne hpl hml (by
+    obtain ⟨b, rest, hbr, b1, b2, b3⟩ := elemsText_first_inline (elemLevel L p) p hne hpl hml hlast (by
       intro v es hp
       simp only [mlFirstOK, hp] at hfirst
       rw [← hp, hs1] at hfirst
@@ -291,7 +425,13 @@ theorem getPattern_ml {s : Src} (hs : AsciiThenBoundary s) (L : Nat) (p : List (
       rw [skipBlankInline_space s q hat.1]
       exact skipBlankInline_stay s _ (by rw [hb0]; simpa using b1)
     have heol : skipEol s (q + 1) = none := by
-      unfold skipEol; rw [hb0]; split <;> simp_all
+      apply skipEol_lone s (q + 1) b hb0 b2
+      intro hb13
+      obtain ⟨c2, r2, hr2, hc2⟩ := b3 hb13
+      have := hat.2
+      rw [hbr, hr2] at this
+      simp only [List.cons_append, at_cons] at this
+      rw [this.2.1]; simpa using hc2
     have hLm : 0 < elemLevel L p ∨ isMultiline p = false := by
       cases hm : isMultiline p
       · exact Or.inr rfl
@@ -325,7 +465,7 @@ theorem getPattern_ml {s : Src} (hs : AsciiThenBoundary s) (L : Nat) (p : List (
     simp only [patText, patPrefix, hs1, if_true, List.cons_append, List.nil_append, at_cons, List.length_cons] at hat hf hq'ge
     rw [hs1] at hml hexc
     rw [hlev] at hat hf hpl hq'ge
-    obtain ⟨k, b, rest, hkb, b1, b2, b3⟩ := elemsText_first_line (L + 1) p hne hpl hml (by
+    obtain ⟨k, b, rest, hkb, b1, b2, b3⟩ := elemsText_first_line (L + 1) p hne hpl hml hlast (by
       intro v es hp
       simp only [mlFirstOK, hp] at hfirst
       rw [← hp, hs1] at hfirst
@@ -340,7 +480,16 @@ theorem getPattern_ml {s : Src} (hs : AsciiThenBoundary s) (L : Nat) (p : List (
     have hsbi : skipBlankInline s q = q := skipBlankInline_stay s q (by rw [hat.1]; decide)
     have heol : skipEol s q = some (q + 1) := by simp [skipEol, hat.1]
     have hsbb : skipBlankBlock s (q + 1) = (q + 1, 0) :=
-      skipBlankBlock_line s (q + 1) k b (at_spaces s _ k hline.1) hline.2 b1 b2 b3
+      skipBlankBlock_line s (q + 1) k b (at_spaces s _ k hline.1) hline.2 b1 b2 (by
+        intro hb13
+        obtain ⟨c2, r2, hr2, hc2⟩ := b3 hb13
+        have := hat.2
+        rw [hkb, hr2, List.append_assoc, at_append] at this
+        have h2 := this.2
+        simp only [List.cons_append, at_cons] at h2
+        have h3 := h2.2.1
+        simp only [spacesL, List.length_replicate] at h3
+        rw [h3]; simpa using hc2)
     rw [hm] at hexc
     simp only [Bool.not_true, Bool.false_or, Bool.or_eq_true, List.isEmpty_iff] at hexc
     have hcfin : excesses true p ≠ [] → ciAfter (4 * (L + 1)) none (excesses true p) = some (4 * (L + 1)) := by
@@ -428,7 +577,7 @@ theorem plRT_inline (L : Nat) (i : Inline Bytes) (hv : validInner (.inline i) = 
     -- `serialize_element` writes the text as one literal
     have hser := serElement_inline_eq i hv w
     have hne : elemBytes (.placeable (.inline i)) ≠ [] := by rw [htl]; simp
-    obtain ⟨hb, hw1⟩ := ws_writeLiteral hw _ hne (by rw [hlast]; decide)
+    obtain ⟨hb, hw1⟩ := wsc_writeLiteral_plain hw _ hne (by rw [htl]; simp) (by rw [hlast]; decide)
     refine ⟨_, hser, by rw [htxt]; exact hb, ?_⟩
     have : endsNl (elemBytes (.placeable (.inline i))) = false := by simp [endsNl, hlast]
     rwa [this] at hw1
